@@ -98,6 +98,8 @@ impl Engine for SemEngine {
                 // two captured variables of one loop iteration, the closures called after the loop
                 // (repaired: CloseUpvalue did not remove its slot, the lower variable stayed open)
                 vec!["sem run mod([],[fn($6d61696e,[],[setvar($63,table),repeat($69,int(#3),composite($5f,[setvar($61,readvar($69)),setvar($62,mul(readvar($69),int(#10))),append(closure([],[return(add(readvar($61),readvar($62)))]),readvar($63))])),setglobal($6730,dyncall([],getprop(readvar($63),int(#0)))),setglobal($6731,dyncall([],getprop(readvar($63),int(#1)))),setglobal($6732,dyncall([],getprop(readvar($63),int(#2))))])],[])".to_string()],
+                // a module-prefix import through `super.` (repaired: it never resolved)
+                vec!["sem run mod([],[fn($6d61696e,[],[setglobal($67,call($6c69622e696e6e65722e72,[]))])],[sub($6c6962,mod([],[],[sub($696e6e6572,mod([$73757065722e736962],[fn($72,[],[return(call($7369622e71,[]))])],[])),sub($736962,mod([],[fn($71,[],[return(int(#7))])],[]))]))])".to_string()],
                 // known finding K8: a failed run_function leaves the callee's frames; a host function that
                 // tolerates the failure (pcall) continues with them on the call stack
                 vec!["sem run mod([],[fn($6d61696e,[],[setglobal($61,call($66,[]))]),fn($66,[],[setvar($78,callnative($7063616c6c,[closure([$70],[return(getprop(int(#1),int(#2)))]),int(#0)])),return(int(#5))])],[])".to_string()],
